@@ -5,7 +5,7 @@
     are Model/Pred.v (tied to the Go code by the correspondence run).
     [FR x] is the real number the float64 [x] denotes; [detR a b c] the exact determinant. *)
 From Coq Require Import ZArith Reals Floats Bool.
-From Geo Require Import Base.GoPrim Base.F64 Base.Exact Gen.R3 Gen.S2Pred Model.Pred Proofs.C02_Exact Proofs.C02_Float Proofs.C02_SoS Proofs.C02_SoSGlobal Proofs.C02_RelErr Proofs.C02_TriageDet Proofs.C02_StableDet Proofs.C02_Robust Proofs.C02_IsUnit Proofs.C02_DistRefuted.
+From Geo Require Import Base.GoPrim Base.F64 Base.Exact Gen.R3 Gen.S2Pred Model.Pred Proofs.C02_Exact Proofs.C02_Float Proofs.C02_SoS Proofs.C02_SoSGlobal Proofs.C02_RelErr Proofs.C02_TriageDet Proofs.C02_StableDet Proofs.C02_Robust Proofs.C02_IsUnit Proofs.C02_DistRefuted Proofs.C02_CosDet.
 Local Open Scope R_scope.
 
 (** exact stage ------------------------------------------------------------------------- *)
@@ -267,3 +267,27 @@ Theorem triage_sign_never_wrong_on_isunit_points : forall a b c,
   s2_triageSign a b c <> 0%Z -> s2_triageSign a b c = sgnR (detR a b c).
 Proof. intros a b c Ha Hb Hc. apply triage_sound_closed; now apply isunit_unit_pt. Qed.
 Print Assumptions triage_sign_never_wrong_on_isunit_points.
+
+(** cos triage (cosDistance / triageCompareCosDistances) ------------------------------------------
+    CLOSED: the triage is sound on normalized points for ANY constants with a relative margin of
+    250 u over the first-order coefficients 19/2 u and 3/2 u ... *)
+Theorem cos_triage_sound_with_adequate_constants : forall C95 C15 : PrimFloat.float,
+  ffinite C95 = true -> ffinite C15 = true ->
+  19 / 2 * u * (1 + 250 * u) <= FR C95 <= 1 -> 3 / 2 * u * (1 + 250 * u) <= FR C15 <= 1 ->
+  forall x a b, norm_pt x -> norm_pt a -> norm_pt b ->
+  triage_cos_with C95 C15 x a b <> 0%Z -> triage_cos_with C95 C15 x a b = cmp_distances_R x a b.
+Proof. exact cos_triage_sound_param. Qed.
+Print Assumptions cos_triage_sound_with_adequate_constants.
+
+(** ... the generated function is [triage_cos_with cos95 cos15], so H_TRIAGE_COS follows from one
+    closed numeric condition on the two constants of predicates.go ... *)
+Theorem H_TRIAGE_COS_reduces_to_a_condition_on_the_constants : cos_consts_adequate -> H_TRIAGE_COS.
+Proof. exact H_TRIAGE_COS_from_consts. Qed.
+Print Assumptions H_TRIAGE_COS_reduces_to_a_condition_on_the_constants.
+
+(** ... which the constants as written do not meet: 9.5*dblError < 19/2 u and 1.5*dblError < 3/2 u,
+    below even the first-order error. H_TRIAGE_COS therefore stays a named hypothesis. *)
+Theorem cos_constants_have_no_second_order_margin :
+  (FR cos95 < 19 / 2 * u /\ FR cos15 < 3 / 2 * u) /\ ~ cos_consts_adequate.
+Proof. split; [exact cos_const_gap|exact cos_consts_not_adequate]. Qed.
+Print Assumptions cos_constants_have_no_second_order_margin.
